@@ -29,6 +29,9 @@ LADDER = {
 
 
 def jobs(tier, seed):
+    # hand-written multi-stage programs with several "idle passes" of the wait loop (see c03.STAGED)
+    from . import c03
+    yield {"bases": c03.STAGED, "menu": [], "k": 0, "convs": CONVS_ALL, "cats": CATS, "r1": True}
     done = set()
     for ent in LADDER[tier]:
         n, k, convs = ent[:3]
